@@ -5,6 +5,7 @@ import (
 	"encoding/json"
 	"fmt"
 	"strings"
+	"sync"
 
 	"mltwist/pkg/model"
 	"mltwist/verifh/eng"
@@ -104,15 +105,18 @@ func c25Pair(c c25Case) *eng.Fail {
 	defer putParsers(pset)
 	ps := pset[c.Cfg]
 	a, e1 := ps.Parse(c25PC, rvx.WordBytes(c.Word))
-	b, e2 := ps.Parse(c25PC, rvx.WordBytes(c.Other))
-	if e1 != nil || e2 != nil {
+	if e1 != nil {
 		return nil
 	}
 	name := rvref.DecodeFast(c.Word, c.Cfg.Ref())
 	if f := c25Single(c.Cfg, c.Word, a, name); f != nil {
 		return f
 	}
-	if c.Other == 0 || detailsText(a) != detailsText(b) {
+	if c.Other == 0 {
+		return nil
+	}
+	b, e2 := ps.Parse(c25PC, rvx.WordBytes(c.Other))
+	if e2 != nil || detailsText(a) != detailsText(b) {
 		return nil
 	}
 	if wit := behaviourDiffers(c.Cfg, a, b, c.Word, c.Other); wit != "" {
@@ -124,7 +128,7 @@ func c25Pair(c c25Case) *eng.Fail {
 
 func init() {
 	checks["C25"] = eng.Check{
-		Rule:        "for rv32ima and rv64ima, per mnemonic: words with every register choice from {x0,x1,x2,x31} (thorough: all 32) in each field x an immediate alphabet, plus ALL 4096 I/S/B immediates, all shift amounts, all 4096 CSR numbers x all 32 uimm/rs1, every aq/rl and fence pred/succ setting, (thorough: all 2^20 U/J immediates; quick every 61st); texts grouped: two words with identical text must have identical lifted effects or, failing that, no valuation on which they differ (witness required). Every text must start with its mnemonic; loads/stores must contain offset(base). Non-trivial = distinct texts seen.",
+		Rule:        "for rv32ima and rv64ima, per mnemonic: words with every register choice from {x0,x1,x2,x31} (thorough: all 32) in each field x an immediate alphabet, plus ALL 4096 I/S/B immediates, all shift amounts, all 4096 CSR numbers x all 32 uimm/rs1, every aq/rl and fence pred/succ setting, (thorough: all 2^20 U/J immediates; quick every 61st); texts grouped per variant ACROSS all mnemonics: two words with identical text must have identical lifted effects or, failing that, no valuation on which they differ (witness required). Every text must start with its mnemonic; loads/stores must contain offset(base). Non-trivial = distinct texts seen.",
 		Assumptions: []string{"behavioural difference is only reported with a concrete witness state (15 pre-states tried)", "fixed address 0x10000"},
 		Run: func(r *eng.Run) {
 			type job struct {
@@ -145,6 +149,12 @@ func init() {
 					regs = append(regs, i)
 				}
 			}
+			type gent struct {
+				dig  [20]byte
+				word uint32
+			}
+			var gmu sync.Mutex
+			global := map[int]map[string]gent{32: {}, 64: {}} // per variant: text -> first (digest, word) over ALL mnemonics
 			r.Par(len(jobs), func(ji int) {
 				j := jobs[ji]
 				pset := getParsers()
@@ -230,6 +240,27 @@ func init() {
 					}
 				}
 				r.Outcome(fmt.Sprintf("%s texts=%d", j.row.Name, len(seen) > 0))
+				// texts must also be unique ACROSS mnemonics (e.g. a clipped width suffix)
+				gmu.Lock()
+				g := global[j.cfg.XLEN]
+				type pair struct{ a, b uint32 }
+				var clashes []pair
+				for txt, e := range seen {
+					if o, ok := g[txt]; ok {
+						if o.dig != e.dig {
+							clashes = append(clashes, pair{o.word, e.word})
+						}
+					} else {
+						g[txt] = gent{e.dig, e.word}
+					}
+				}
+				gmu.Unlock()
+				for _, cl := range clashes {
+					if f := c25Pair(c25Case{Cfg: j.cfg, Word: cl.a, Other: cl.b}); f != nil {
+						r.Report(f)
+						r.Outcome(f.Sig)
+					}
+				}
 			})
 			r.Sample(c25Case{Cfg: rvx.Cfg{XLEN: 64, M: true, A: true}, Word: 0x00209193, Other: 0x00309193, Hex: "slli x3,x1,2 / slli x3,x1,3"})
 		},
